@@ -127,6 +127,22 @@ func useCheck(id, fam string, tier common.Tier) int {
 				if !rich {
 					continue
 				}
+				// Phase E: the loader's other choice — the package's files parsed in the opposite order (later files get the
+				// LOWER positions): every declaration kind in every pair of files.
+				for encl := e1.UEPlain; encl < e1.UseEncl(len(e1.UseEnclNames)); encl++ {
+					for _, fa := range []int{0, 1} {
+						b1 := e1.UseBlock{Encl: encl, File: fa}
+						b2 := e1.UseBlock{Encl: e1.UEPlain, File: 1 - fa, Stmts: core}
+						if encl.HasBody() {
+							b1.Stmts = core
+							b2 = e1.UseBlock{Encl: e1.UEPkgVar, File: 1 - fa, Stmts: core}
+						}
+						h := []e1.UseBlock{b1, b2, {Encl: e1.UENoImport}}
+						if e1.ValidUseHistory(h) {
+							do(&e1.UseSpec{Pkg: pk, Mix: mix, Sites: sites, Blocks: h, ReverseParse: true})
+						}
+					}
+				}
 				// Phase D: the import spelled with another name or as a dot import (importing packages only).
 				if pk.Path != e1.PathD {
 					for _, sp := range []e1.Spell{e1.SpRenamedImp, e1.SpDotImport, e1.SpLocalAlias, e1.SpThirdAlias} {
